@@ -16,7 +16,7 @@ RUSTFLAGS = "--cfg tokio_unstable --cfg pnordahl_monorail_verif"
 BIN_MONORAIL = os.path.join(TARGET, "debug", "monorail")
 BIN_VHARNESS = os.path.join(TARGET, "debug", "vharness")
 BIN_VHELPER = os.path.join(TARGET, "debug", "vhelper")
-BIN_VMODEL = os.path.join(MAIN_CACHE, "ocaml", "vmodel")
+BIN_VMODEL = os.environ.get("VERIF_VMODEL") if (ALT and os.environ.get("VERIF_VMODEL")) else os.path.join(MAIN_CACHE, "ocaml", "vmodel")
 
 FORBIDDEN = re.compile(r"\b(Admitted|admit|Axiom|Axioms|Parameter|Parameters|Conjecture|Conjectures|Abort All|bypass_check)\b|Unset\s+Guard|Unset\s+Positivity|Unset\s+Universe|-type-in-type|-impredicative-set|Admit Obligations")
 ALLOWED_AXIOMS = set()  # every property theorem is expected to be closed under the global context
@@ -111,6 +111,22 @@ class BuildLock:
 def cargo_env():
     return {"CARGO_TARGET_DIR": TARGET, "RUSTFLAGS": RUSTFLAGS, "CARGO_NET_OFFLINE": "true"}
 
+def repo_digest():
+    """Content digest of everything cargo compiles from the checkout under test (mtimes are not trusted: a file put back with an
+    old timestamp must still cause a rebuild)."""
+    h = hashlib.sha256()
+    roots = [os.path.join(REPO, "src"), os.path.join(REPO, "Cargo.toml"), os.path.join(REPO, "Cargo.lock"), os.path.join(REPO, "build.rs"),
+             os.path.join(REPO, ".cargo"), os.path.join(VERIF, "harness", "src"), os.path.join(VERIF, "harness", "Cargo.toml")]
+    for r in roots:
+        if os.path.isfile(r): files = [r]
+        else: files = sorted(os.path.join(d, f) for d, _, fs in os.walk(r) for f in fs)
+        for f in files:
+            h.update(f.encode()); h.update(b"\0")
+            try: h.update(open(f, "rb").read())
+            except OSError: pass
+            h.update(b"\0")
+    return h.hexdigest()
+
 def build_rust(log):
     """Rebuild harness (path dependency on /repo, so it follows the working tree) and the monorail binary."""
     hdir = os.path.join(VERIF, "harness")
@@ -121,6 +137,12 @@ def build_rust(log):
         ct = os.path.join(hdir, "Cargo.toml")
         txt = open(ct).read().replace('path = "/repo"', 'path = "%s"' % REPO)
         open(ct, "w").write(txt)
+    digest = repo_digest() + "|" + REPO
+    stamp = os.path.join(CACHE, "rust_src.stamp")
+    if os.path.isdir(TARGET) and (not os.path.exists(stamp) or open(stamp).read() != digest):
+        # the sources differ from what the cached artifacts were built from: do not leave it to cargo's timestamp comparison
+        sh(["cargo", "clean", "--offline", "-p", "monorail"], cwd=REPO, env=cargo_env())
+        sh(["cargo", "clean", "--offline", "-p", "monorail", "-p", "vharness"], cwd=hdir, env=cargo_env())
     rc, out = sh(["cargo", "build", "--offline", "--bins"], cwd=hdir, env=cargo_env())
     log.append(out[-3000:])
     if rc != 0:
@@ -129,6 +151,7 @@ def build_rust(log):
     log.append(out[-3000:])
     if rc != 0:
         return False, "cargo build of /repo failed:\n" + out[-3000:]
+    open(stamp, "w").write(digest)
     return True, ""
 
 def coq_sources():
@@ -299,13 +322,52 @@ def git(repo, *args, check=True):
         raise RuntimeError("git %s failed: %s" % (" ".join(args), r.stderr.decode("utf-8", "replace")))
     return r.stdout
 
-_port = [0]
+_PORT_DIR = os.path.join(tempfile.gettempdir(), ".verif-ports")
+_reserved = []
+def _release_ports():
+    for f in _reserved:
+        try: os.remove(f)
+        except OSError: pass
+def _reserve(p):
+    """Cross-process reservation of the pair (p, p+1): an O_EXCL marker file naming the owner, plus a bind probe."""
+    import socket
+    f = os.path.join(_PORT_DIR, str(p))
+    try:
+        fd = os.open(f, os.O_CREAT | os.O_EXCL | os.O_WRONLY, 0o644)
+    except FileExistsError:
+        try:
+            owner = int(open(f).read().strip() or "0")
+            os.kill(owner, 0)
+            return False                      # owned by a live process
+        except (ValueError, ProcessLookupError, OSError):
+            try: os.remove(f)
+            except OSError: pass
+            return False                      # stale marker removed; the caller draws again
+    os.write(fd, str(os.getpid()).encode()); os.close(fd)
+    for q in (p, p + 1):
+        sk = socket.socket(socket.AF_INET, socket.SOCK_STREAM)
+        try:
+            sk.bind(("127.0.0.1", q))
+        except OSError:
+            sk.close()
+            try: os.remove(f)
+            except OSError: pass
+            return False
+        sk.close()
+    _reserved.append(f)
+    return True
+_port_rng = [None]
 def fresh_ports():
-    """A pair of TCP ports (lock, log) private to this process and scenario."""
-    if _port[0] == 0:
-        _port[0] = 20000 + (os.getpid() * 37) % 20000
-    _port[0] += 2
-    return _port[0], _port[0] + 1
+    """A pair of TCP ports (lock, log) private to this scenario: below the ephemeral range, reserved against every other check
+    process running on the machine (several checks may run at once), and verified to be free right now."""
+    if _port_rng[0] is None:
+        os.makedirs(_PORT_DIR, exist_ok=True)
+        _port_rng[0] = random.Random(os.getpid() * 1000003 + int(time.time() * 1000) % 1000003)   # not the scenario generator
+        import atexit; atexit.register(_release_ports)
+    for _ in range(5000):
+        p = 10000 + 2 * _port_rng[0].randrange(11000)
+        if _reserve(p): return p, p + 1
+    raise RuntimeError("no free port pair found")
 
 def write_config(repo, cfg, extra=None):
     d = dict(cfg)
@@ -328,10 +390,10 @@ def monorail(repo, *args, env=None, timeout=120, stdin=None):
         return None
     return r.returncode, last_json(r.stdout), last_json(r.stderr), r
 
-def mk_repo(ctx, cfg, extra_files=None):
-    """A fresh git repository whose targets exist on disk and are committed."""
+def mk_repo(ctx, cfg, extra_files=None, object_format=None):
+    """A fresh git repository whose targets exist on disk and are committed (object_format="sha256": 64-digit object names)."""
     repo = tempfile.mkdtemp(prefix="repo-", dir=ctx.scratch)
-    git(repo, "init", "-q", "-b", "main")
+    git(repo, "init", "-q", "-b", "main", *(["--object-format=" + object_format] if object_format else []))
     for t in cfg.get("targets", []):
         os.makedirs(os.path.join(repo, t["path"]), exist_ok=True)
         with open(os.path.join(repo, t["path"], "_f"), "w") as f: f.write("x")
